@@ -1,6 +1,7 @@
 package main
 
 import (
+	"encoding/json"
 	"fmt"
 	"math"
 	"sort"
@@ -326,6 +327,40 @@ func c04Case(w *core.Worker, i int) {
 			evaluated++
 			c04SetOp(t, keyCols, strict, op, v, func(sig, what string) { viol("setop:"+op+":"+sig, q, what) })
 		}
+	}
+	// 5. DISTINCT inside aggregates: the values an aggregate keeps are one per class of its (non-NULL) arguments
+	for j := 0; j < nk; j++ {
+		kn := names[j]
+		q = fmt.Sprintf("SELECT COUNT(DISTINCT %s) AS c, JSON_AGG(DISTINCT %s) AS j FROM t", kn, kn)
+		v := run(q)
+		if v == nil || len(v.Rows) != 1 {
+			continue
+		}
+		var arr []interface{}
+		if err := json.Unmarshal([]byte(v.Rows[0][1].S), &arr); err != nil {
+			continue
+		}
+		sub := &GTable{Name: "t", Cols: []string{kn}}
+		for _, row := range t.Rows {
+			if row[1+j] != nil {
+				sub.Rows = append(sub.Rows, []*string{row[1+j]})
+			}
+		}
+		outs := &core.Table{Header: []string{kn}}
+		for _, x := range arr {
+			if str, ok := x.(string); ok {
+				outs.Rows = append(outs.Rows, []core.Val{{T: 'S', S: str}})
+			}
+		}
+		c04Distinct(sub, []int{0}, strict, outs, func(sig, what string) { viol("aggregate-distinct:"+sig, q, what) })
+		if c, _ := strconv.Atoi(v.Rows[0][0].S); c != len(outs.Rows) {
+			viol("aggregate-distinct:count", q, fmt.Sprintf("COUNT(DISTINCT) = %s but JSON_AGG(DISTINCT) keeps %d non-NULL values", v.Rows[0][0].S, len(outs.Rows)))
+		}
+		q2 := fmt.Sprintf("SELECT COUNT(DISTINCT %s) OVER () FROM t LIMIT 1", kn)
+		if v2 := run(q2); v2 != nil && len(v2.Rows) == 1 && v2.Rows[0][0].S != v.Rows[0][0].S {
+			viol("aggregate-distinct:analytic", q2, fmt.Sprintf("COUNT(DISTINCT) OVER () = %s, COUNT(DISTINCT) = %s", v2.Rows[0][0].S, v.Rows[0][0].S))
+		}
+		w.Count("aggregate_distinct_judged", 1)
 	}
 	if i < 30 {
 		w.Sample(map[string]interface{}{"table": t.Dump(6), "keys": keyList, "strict_equal": strict, "cpu": cpu, "pairs_same": same, "pairs_different": diff})
